@@ -27,3 +27,18 @@ Theorem C18_retain_prefix : forall khash keep s p,
   retain_until khash keep s p (List.length (nodes s)) = retain khash keep s p.
 Proof. intros; split; [apply retain_until_zero | apply retain_until_all]. Qed.
 Print Assumptions C18_retain_prefix.
+
+(* in the sequential model: the callback is applied to the current value of the unmodified
+   state, and every write comes after it returned *)
+From Flurry Require Import Proofs.SeqProofs Proofs.SeqFinal.
+Theorem C18_compute_callback_before_write : forall khash remap s0 k f,
+  WF khash s0 ->
+  let s := init_table s0 in
+  (forall k', abs khash s k' = abs khash s0 k') /\
+  match abs khash s0 k with
+  | Some (_, v) => exists t, tbl s = Some t /\
+        compute khash remap s0 k f = compute_finish khash s t k (remap f k v)
+  | None => compute khash remap s0 k f = (s, ONone)
+  end.
+Proof. exact compute_callback_before_write_final. Qed.
+Print Assumptions C18_compute_callback_before_write.
